@@ -349,6 +349,37 @@ def clause_encoding(prog, rep):
                   "encode uses %s but decode uses %s" % (sorted(eng_e), sorted(eng_d)), e[0].loc())
 
 
+NORMALISERS = ("trim", "trim_start", "trim_end", "trim_matches", "trim_start_matches", "trim_end_matches", "to_lowercase", "to_uppercase",
+               "to_ascii_lowercase", "to_ascii_uppercase", "replace", "replacen", "strip_prefix", "strip_suffix", "split_whitespace", "lines",
+               "trim_ascii", "trim_ascii_start", "trim_ascii_end")
+
+
+def clause_content_verbatim(prog, rep):
+    """an event's content is decoded as written: a normaliser (trim, case folding, replace ...) between the event's content and the
+    base64 / hex decoder makes several distinct contents (hence distinct event ids) parse to the same object"""
+    core = K.core_scope(prog)
+    n = 0
+    for f in prog.nontest_fns(("mdk_core",)):
+        if f.name != "decode_content" and not (f.is_closure() and "::decode_content::" in f.path):
+            continue
+        for c in f.live_calls():
+            if not (c.name == "decode" and (c.krate in ("base64", "hex") or "base64" in (c.trait or ""))):
+                continue
+            if len(c.args) < 1:
+                continue
+            a = c.args[-1]
+            if "p" not in a:
+                continue
+            n += 1
+            og = A.origins(prog, f, a["p"][0], scope=core, max_frames=3)
+            bad = sorted(set(x.name for x in og.calls if x.name in NORMALISERS and x.krate in ("core", "alloc", "std")))
+            rep.check(not bad, "encoding", "content-verbatim/%s" % c.krate,
+                      "the decoder is given the event's content as written (no trimming / case folding on the way)",
+                      "the content is normalised (%s) before it is decoded: contents that differ only in what the normaliser drops (and "
+                      "therefore have different event ids) are accepted as the same object" % ", ".join(bad), c.loc())
+    rep.floor("encoding", "content decoders in decode_content", n, 1)
+
+
 def run(ctx, rep):
     prog = ctx.prog()
     rep.fns_analysed = len(K.core_scope(prog))
@@ -364,3 +395,4 @@ def run(ctx, rep):
     clause_extension_wiring(prog, rep)
     clause_imeta(prog, rep)
     clause_encoding(prog, rep)
+    clause_content_verbatim(prog, rep)
